@@ -69,8 +69,8 @@ r(S + "scan_plain_scalar", "assert:Overflow(Sub)", "bufmaxlen() - 1: capacities 
 r(S + "scan_uri_escapes", "assert:Overflow(Add)", "(as_hex(c) << 4) + as_hex(nc) <= 255 and (code << 8) + byte with a zero low byte, in u32")
 r(S + "scan_uri_escapes", "assert:Overflow(Shl)", "constant shift amounts 4 and 8 < 32")
 r(S + "scan_uri_escapes", "assert:Overflow(Sub)", "width -= 1 after width was set to 1..=4 (or is still > 0 from the previous round)")
-r(S + "scan_version_directive_number", "assert:Overflow(Add)", "val * 10 + digit over at most 9 decimal digits fits u32")
-r(S + "scan_version_directive_number", "assert:Overflow(Mul)", "at most 9 decimal digits (length guard before the multiplication)")
+# scan_version_directive_number: val * 10 + digit is no longer reviewed - it is discharged by the decimal-accumulator lemma (engine/panics.py),
+# which checks the length guard that bounds the number of digits
 r(S + "skip_block_scalar_first_line_indent", "assert:Overflow(Add)", "self.indent + 1 in isize")
 r(S + "skip_block_scalar_indent", "assert:Overflow(Sub)", "bufmaxlen() - 2: capacities are >= 8")
 r(S + "skip_break", "diverge", "debug_assert!(is_break(c)): skip_break/read_break are only called after next_is_break()/is_break tests on the cursor (class-domain obligation of C14(c); reviewed at the call sites)")
